@@ -6,10 +6,12 @@ import (
 	"fmt"
 	"sort"
 	"strings"
+	"time"
 
 	"github.com/meshplus/bitxhub-kit/types"
 	"github.com/meshplus/bitxhub-model/pb"
 	"github.com/meshplus/bitxhub/internal/ledger"
+	"github.com/meshplus/bitxhub/internal/verifhook"
 )
 
 // RootFinding is one disagreement between a committed block's state root and what the block changed.
@@ -25,6 +27,26 @@ func (r *Replica) TakeRootFindings() []RootFinding {
 	return f
 }
 
+// watchDirty registers an observer at the executor's hook point "exec.block.before_clear" (the block is flushed,
+// committed and announced; the next statement empties the ledger's working set): whatever is dirty there was
+// written after FlushDirtyData. The observer runs in the executor's goroutine.
+func (r *Replica) watchDirty() {
+	sl, ok := r.L.StateLedger.(*ledger.SimpleLedger)
+	if !ok {
+		return
+	}
+	verifhook.Observe("exec.block.before_clear", func() {
+		if d := sl.VerifDirtyAccounts(); len(d) > 0 {
+			r.dirtyMu.Lock()
+			r.dirtyLate = append(r.dirtyLate, d)
+			r.dirtyMu.Unlock()
+		}
+		r.dirtyMu.Lock()
+		r.DirtyLooks++
+		r.dirtyMu.Unlock()
+	})
+}
+
 // rootCheck runs right after a block was committed.
 //
 //  1. nothing may be left dirty in the working set: the state root is computed by FlushDirtyData, a write
@@ -34,11 +56,29 @@ func (r *Replica) TakeRootFindings() []RootFinding {
 //     differing key, and the journal's hash is the root in the block header.
 func (r *Replica) rootCheck(blk *pb.Block) {
 	h := blk.BlockHeader.Number
-	if sl, ok := r.L.StateLedger.(*ledger.SimpleLedger); ok {
-		r.RootBlocks++
-		if d := sl.VerifDirtyAccounts(); len(d) > 0 {
-			r.RootFindings = append(r.RootFindings, RootFinding{"written-after-root", fmt.Sprintf("block %d: after the block was committed the ledger's working set still holds changes of %v: they were made after the state root was computed", h, d)})
+	r.RootBlocks++
+	// what the executor's working set still held when the block was done (see watchDirty): taken at the hook
+	// point right before the executor clears it
+	if r.Opts.RootMon {
+		// the executor announces the block before it reaches the hook point: wait for it (bounded; a look that
+		// never comes is counted, not judged)
+		r.rootExecs++
+		for i := 0; i < 2000; i++ {
+			r.dirtyMu.Lock()
+			n := r.DirtyLooks
+			r.dirtyMu.Unlock()
+			if n >= r.rootExecs {
+				break
+			}
+			time.Sleep(time.Millisecond)
 		}
+	}
+	r.dirtyMu.Lock()
+	late := r.dirtyLate
+	r.dirtyLate = nil
+	r.dirtyMu.Unlock()
+	for _, d := range late {
+		r.RootFindings = append(r.RootFindings, RootFinding{"written-after-root", fmt.Sprintf("block %d: when the block was committed the ledger's working set still held changes of %v: they were made after the state root was computed (FlushDirtyData) and are thrown away", h, d)})
 	}
 	if !r.Opts.RootMon {
 		return
